@@ -65,7 +65,7 @@ _c('C17', 'Proved: entering DispatchTrip assigns, leaving it by any instruction 
           'Proved over ALL finite histories of step operations with instructions from any controller (C17_invariant_over_histories, via the macro frame theorem): a waiting request that records '
           'a dispatched vehicle names an existing vehicle whose activity is DispatchTrip to exactly that request. The dispatcher\'s request filter, regenerated from dispatcher.py, never offers a request that already records a vehicle (C17_dispatcher_offers_only_unassigned_requests). '
           'Proved over all finite histories whose instruction batches are valid in the state they are applied to (C17_one_vehicle_per_request_over_histories): if in every batch the DispatchTrip instructions target requests recording nobody at the start of the batch '
-          '(what the filter gives: C17_filter_makes_targets_free) and no two target the same request (the assignment solver\'s contract, checked per instance by the dispatcher engine), and rows are admitted under ids no vehicle is travelling to, '
+          '(what the filter gives: C17_filter_makes_targets_free) and no two target the same request (checked per instance by the dispatcher engine over the WHOLE run, all fleets together - per fleet it is the assignment solver\'s contract; across fleets it failed on the pinned tree for requests open to several fleets: defect repaired by a8e6458 - and by scenario runs with the built-in dispatcher), and rows are admitted under ids no vehicle is travelling to, '
           'then at most one vehicle is travelling to any waiting request.',
    'Coq proof: state invariant by induction over operation histories (macro frame theorem) + translated assign/unassign kernels; correspondence; monitor')
 _c('C18', 'Proved: the update order is non-queued first then queued sorted by the injective key (enqueue_time, id); every vehicle is processed; of two queued vehicles the earlier is offered a freed plug first. '
